@@ -11,7 +11,7 @@ META = {
     "level": "other",
     "technique": "static analysis: who-may-construct (TextRange/TextSize constructors and arithmetic in crate ide against an allow-list of reviewed sites), def-use provenance of (file, range) pairs, parser abstract interpretation for token exactness",
     "rule": "A1 in crate ide a TextRange is obtained only from text_range() of a syntax node/token, from a syntax error, or from one of "
-            "the reviewed constructor sites (no TextRange::new/at/empty/up_to, no TextSize arithmetic elsewhere); A2 every "
+            "the reviewed constructor sites (no TextRange::new/at/empty/up_to/cover/intersect, no TextRange/TextSize arithmetic elsewhere: a cut or joined range is no longer the range of a token); A2 every "
             "NavigationTarget and every search hit pairs a range with the file of the node the range was read from; A3 syntax errors "
             "carry the current token's range or the empty range at the end of the text, and no other Error value is built; A4 name-like "
             "nodes wrap exactly one token (C07/N1). One obligation per constructor site / aggregate. A6 = C13/D6 (the analysis is told about every file the store adds or removes); A7 = C13/D10; A9 = C13/D4; A8 = C13/D9 (the analysis receives the last text recorded for a file, the one the store converts with).",
@@ -23,7 +23,7 @@ META = {
     "assumptions": [],
 }
 
-CTOR = re.compile(r"^text_size::range::TextRange::(new|at|empty|up_to|cover|cover_offset)$|^text_size::(range|size)::<impl core::ops::arith::(Add|Sub|AddAssign|SubAssign)")
+CTOR = re.compile(r"^text_size::range::TextRange::(new|at|empty|up_to|cover|cover_offset|intersect|checked_add|checked_sub)$|^text_size::(range|size)::<impl core::ops::arith::(Add|Sub|AddAssign|SubAssign)")
 # reviewed constructor sites: function -> (constructor, reason)
 ALLOWED = {
     ("ide::def::semantics::Definition::to_nav", "TextRange::new"): "Definition::Module: the empty range 0..0 at the start of the module's file",
